@@ -398,6 +398,57 @@ fn pass_corpus(ctx: &Ctx, stats: &Stats) -> Vec<Failure> {
         .collect()
 }
 
+/// Programs of the C11 generator (several range checks, comparisons with and without a range check of
+/// their inputs, marked template names) run repeatedly under the generated curve: every process has fresh
+/// hasher keys, and the curve-dependent passes keep their facts in hash maps keyed by expression.
+fn curve_case(ctx: &Ctx, tape: &[u8], rec: &Rec) -> Verdict {
+    let quiet_stats = Stats::new();
+    let quiet = Rec::new(&quiet_stats, false);
+    let (src, stubs, curve_arg) = super::c11::random_source(tape, &quiet)?;
+    let dir = scratch(ctx, "c17c");
+    let path = dir.join("c.circom");
+    std::fs::write(&path, &src).map_err(|e| Bad::new(format!("INFRA write: {e}")))?;
+    std::fs::write(dir.join("zzstubs.circom"), stubs).map_err(|e| Bad::new(format!("INFRA write: {e}")))?;
+    let run = || -> Result<Option<(BTreeMap<super::c03::Shown, usize>, Option<i32>)>, Bad> {
+        let mut o = RunOpts::files(&[&path]).verbose().level("info");
+        o.curve = Some(curve_arg.clone());
+        o.cpu_secs = 120;
+        let b = run_bin(ctx, &o)?;
+        if crashed(&b.out) || b.out.status == Some(2) {
+            return Ok(None);
+        }
+        Ok(Some((b.shown.clone(), b.out.status)))
+    };
+    let res = (|| {
+        let Some(first) = run()? else {
+            rec.class("curve_programs_crashed_or_rejected_skipped");
+            return Ok(());
+        };
+        rec.class("curve_programs");
+        let nfind: usize = first.0.values().sum();
+        if src.matches("LessThan(").count() >= 2 && src.matches("Num2Bits(").count() >= 2 && nfind >= 3 {
+            rec.nontrivial(fnv(src.as_bytes()));
+        }
+        rec.sample(|| json!({"curve_argument": curve_arg, "program": src.chars().take(1000).collect::<String>(), "findings": nfind}));
+        for n in 0..ctx.tier.pick(7, 19) {
+            let Some(again) = run()? else { continue };
+            rec.class("curve_program_repeat_runs");
+            if again != first {
+                let (a, b) = diff(&first.0, &again.0);
+                return Err(Bad::new(format!(
+                    "under --curve {curve_arg}: run {} displays different findings: only in the first run {a:?}; only in the later run {b:?}",
+                    n + 2
+                ))
+                .sig("C17:nondeterministic-curve-program")
+                .rendered(src.clone()));
+            }
+        }
+        Ok(())
+    })();
+    let _ = std::fs::remove_dir_all(&dir);
+    res
+}
+
 const EXTRA_BROKEN: &str = "\ntemplate ZzBroken(k) {\n    signal input zin;\n    var (za, zb) = (k, 2, 3);\n    signal output zout;\n    zout <-- zin;\n}\n";
 
 const EXTRA_DEFS: &str = "\ntemplate ZzExtra(k) {\n    signal input zin;\n    signal output zout;\n    var zv = k * 2;\n    zout <-- zin * zv;\n}\nfunction zzextra(x) {\n    var y = x + 1;\n    return x;\n}\n";
@@ -549,6 +600,7 @@ pub fn replay(ctx: &Ctx, check: &str, tape: &[u8]) -> Verdict {
         }
         "duplicate_names" => duplicate_case(ctx, tape, &rec),
         "twin_files" => twin_case(ctx, tape, &rec),
+        "curve_programs" => curve_case(ctx, tape, &rec),
         _ => Err(Bad::new(format!("unknown check {check}"))),
     }
 }
@@ -570,13 +622,15 @@ pub fn run(ctx: &Ctx) -> i32 {
     outcome.absorb(&known, fails);
     let fails = run_tapes_opts(ctx, "twin_files", ctx.tier.pick(200, 3_000), 3000, 40, &stats, |tape, rec| twin_case(ctx, tape, rec));
     outcome.absorb(&known, fails);
+    let fails = run_tapes_opts(ctx, "curve_programs", ctx.tier.pick(400, 6_000), 600, 40, &stats, |tape, rec| curve_case(ctx, tape, rec));
+    outcome.absorb(&known, fails);
     finish(
         ctx,
         &stats,
         &outcome,
         EvidenceSpec {
             level: "exploration",
-            rule: "generated multi-file projects (as C03: definitions that call/instantiate each other, includes, optional main component) are run through the real binary with --sarif-file. (a) the same command is repeated (5 processes in quick, 20 in thorough; every process has fresh random hasher keys, so map iteration orders differ): displayed findings and SARIF results must be identical including positions; (b) the named files are given in reverse order (identical findings) and the definitions of every file are randomly permuted and re-printed (findings equal modulo positions: rule id, level, message with `_<line>_<offset>` names normalised, whitespace/comment-normalised text under every label); (c) an unreferenced template and function are inserted into a named file: the findings not located in the inserted lines must equal the original findings modulo positions, and the inserted definitions must have findings of their own. Non-trivial = project with >= 3 definitions, a component instantiation and >= 3 findings; distinct by project hash. One evaluation = one project (8-23 runs).",
+            rule: "generated multi-file projects (as C03: definitions that call/instantiate each other, includes, optional main component) are run through the real binary with --sarif-file. (a) the same command is repeated (5 processes in quick, 20 in thorough; every process has fresh random hasher keys, so map iteration orders differ): displayed findings and SARIF results must be identical including positions; (b) the named files are given in reverse order (identical findings) and the definitions of every file are randomly permuted and re-printed (findings equal modulo positions: rule id, level, message with `_<line>_<offset>` names normalised, whitespace/comment-normalised text under every label); (c) an unreferenced template and function are inserted into a named file: the findings not located in the inserted lines must equal the original findings modulo positions, and the inserted definitions must have findings of their own. (d) programs of the C11 generator (range checks, comparisons whose inputs are or are not range-checked, marked template names; one template, 2-11 such items) are run 8 times (20 in thorough) under the generated --curve spelling: displayed findings and exit status must be identical; non-trivial there = at least two comparisons, two range checks and three findings. Non-trivial = project with >= 3 definitions, a component instantiation and >= 3 findings; distinct by project hash. One evaluation = one project (8-23 runs).",
             assumptions: vec!["hash iteration orders are sampled by repeated processes; they cannot be enumerated (std RandomState cannot be seeded from outside)".into()],
             extra: json!({}),
         },
